@@ -56,6 +56,7 @@ class Ctor(Stream):
     TS 24.501 reference parser (Spec/TS24501.v) and compared with the values the arguments were meant to carry"""
     name = "constructors"
     sub = "nasctor"
+    retained_field = "bytes"
     requires = REQ
     model_check = "ctor_model_check"
     spec_check = "ctor_spec_check"
@@ -110,6 +111,12 @@ class Ctor(Stream):
             res = rng.bytes(16)
             cs.append({"args": {"name": "GetAuthenticationResponse", "res": res.hex()},
                        "mand": [fv(0, 0, [0x7E]), fv(0, 0, [0]), fv(0, 0, [0x57])], "opt": [fv(0x2D, 16, res)]})
+
+            # the EAP variant (EAP-AKA' packets are 8 + 4k octets: lengths with every residue mod 3, i.e. every base64 padding)
+            import base64
+            eap = rng.bytes([36, 40, 44, 9, 10, 11, 300][i % 7])
+            cs.append({"args": {"name": "GetAuthenticationResponse", "eap_b64": base64.b64encode(eap).decode()},
+                       "mand": [fv(0, 0, [0x7E]), fv(0, 0, [0]), fv(0, 0, [0x57])], "opt": [fv(0x78, len(eap), eap)]})
 
             cont = rng.bytes(rng.range(1, 60))
             cs.append({"args": {"name": "GetSecurityModeComplete", "container": cont.hex()},
